@@ -29,6 +29,7 @@ structure Par where
   keys : Val → List Val                           -- the keys of a map in the order `range` happens to give them
   mapGet : Val → Val → Val                        -- m[k]
   sort : List Val → List Val                      -- sort.Strings
+  toLower : Bytes → Bytes                         -- strings.ToLower
 
 def nm (s : String) : Val := .bytes s.toUTF8.toList
 
@@ -75,6 +76,7 @@ def ext (P : Par) : String → List Val → Option (List Val)
   | "InitialFields.keys", [m] => some [.list (P.keys m)]
   | "InitialFields.get", [m, k] => some [P.mapGet m k]
   | "sort.Strings", [.list ks] => some [.list (P.sort ks)]
+  | "strings.ToLower", [.bytes s] => some [.bytes (P.toLower s)]
   | "id", [v] => some [v]
   | "set", [_, v] => some [v]
   | _, _ => none
